@@ -111,11 +111,25 @@ CHECKS['C07'] = dict(
     require=['images_walked', 'attach_relocate_comparisons', 'switch_overs_to_relocated_copy', 'remove_by_idx_out_of_range', 'exhaustive_images'],
     assumptions=HASHARR_ASSUME + ['relocation targets are 4-byte aligned (natural alignment of the image structs)'])
 
+
+CHECKS['C08'] = dict(
+    title='list table exact ordered multimap under every option combination', level='exploration',
+    jobs=lambda tier, seed: [Job('h_listtbl', 'plain', extra_srcs=REFS_HASH, args=['--cases', '12800' if tier == 'thorough' else '960'])],
+    rule='evaluation = one operation (put/putstr/putstrf/putint, get/getstr/getint, getmulti, remove, full and name-filtered walks with both copy flags, '
+         'removeobj of the first/last/only/middle entry during a walk, sort, save+load with and without encoding, clear) compared with an ordered-multimap model '
+         'parameterised by the 4 options; after every operation the raw chain (public links) is compared entry by entry with the model order and the link invariants are checked. '
+         'All 16 option combinations, names differing only in case. distinct = distinct (option combination, name sequence) states.',
+    require=['order_compares', 'full_walks_audited', 'named_walks_audited', 'getmulti', 'removeobj_first', 'removeobj_last', 'removeobj_only', 'removeobj_middle',
+             'sorts', 'save_load_roundtrips', 'save_load_append_roundtrips', 'remove_multiple'],
+    assumptions=['ordered-multimap model (h_listtbl.c); strcmp/strcasecmp of the C library define key equality and sort order',
+                 'save/load: names are identifier-like, values are strings; raw (unencoded) mode only for values without newline and without leading/trailing blanks'])
+
 # --------------------------------------------------------------------------- manifest texts
 NOT_APPLICABLE = {}
 DESIGN_REF = {}
 LEVEL_NOTE = {}
 TECHNIQUE = {
+    'C08': 'reference-model oracle (ordered multimap x 16 option combinations) + link-invariant walker after every operation',
     'C06': 'reference-model oracle (bounded map with slot accounting) on bounded-exhaustive images + random histories',
     'C07': 'image-graph walker + attach/relocate equivalence + guard zones (ASan-poisoned) after every operation',
     'C05': 'reference-model oracle (map) + chain-invariant walker after every operation; removals directed by chain position',
@@ -125,6 +139,7 @@ TECHNIQUE = {
     'C04': 'reference-model floor oracle + continuation multiset audit; CPU watchdog',
 }
 LEVEL_TEXT = {
+    'C08': 'Every result of the real list table is compared with an ordered-multimap model under all 16 option combinations, the raw chain order is compared after every operation, and save/load round trips are executed on real files.',
     'C06': 'Every result, errno and counter of the real static hash table is compared with a bounded-map model including the exact fit rule, on every operation applied to every reachable image for small capacities and on random histories driven to and past full.',
     'C07': 'An independent walker validates the slot graph after every operation; second handles on the same memory and on relocated byte copies must observe identical contents and can continue; poisoned guard zones catch any access outside the user region.',
     'C05': 'Every result of the real hash table is compared with an association-array model over ranges 1,2,3,7,64 and default, with chains up to 40 long and removal forced at head/middle/tail; a walker recomputes every slot placement with an independent MurmurHash3.',
